@@ -15,7 +15,8 @@ import DEngine.Model.MiniKv
   * `reload`                            — lease.rs `TtlLease::reload` / `from_snapshot`: table := entries of
         the snapshot with `expire_at > now` (expired entries are dropped; the data is not touched).
   * `step (.put/.del/.cas)`             — `apply_chunk` of file_state_machine.rs and rocksdb_state_machine.rs:
-        Insert{ttl: Some t} registers, Insert{ttl: None} unregisters, Delete unregisters, successful CAS
+        Insert{ttl: Some t} registers (and PANICS inside apply_chunk when `now + t` overflows the i64
+        seconds of `SystemTime` — `Obs.panic`), Insert{ttl: None} unregisters, Delete unregisters, successful CAS
         unregisters, failed CAS leaves the lease alone; File engine appends a WAL record first
         (`encode_wal_entry`: Insert carries `expire_at` in seconds or 0, successful CAS is written as
         Insert with 0, failed CAS as CasFailed).
@@ -96,17 +97,22 @@ inductive Obs where
   | cas (ok : Bool)
   | removed (ks : List Nat)
   | nosnap
+  | panic
 deriving DecidableEq, Repr, Inhabited
+
+/-- `SystemTime` seconds are an `i64`: `now + ttl` must stay below 2^63. -/
+def overflowAt : Nat := 9223372036854775808
 
 /-! ## TtlLease -/
 
 def isExpired (now : Nat) (p : Nat × Nat) : Bool := p.2 ≤ now
 
 /-- `get_expired_keys(now)`: keys whose expiry is `<= now`. -/
-def expiredKeys (lease : AMap) (now : Nat) : List Nat := (lease.filter (isExpired now)).map (·.1)
+def expiredKeys (lease : AMap) (now : Nat) : List Nat :=
+  (lease.map (·.1)).filter fun k => match get lease k with | some d => d ≤ now | none => false
 
-/-- table after `get_expired_keys(now)` removed them. -/
-def dropExpired (lease : AMap) (now : Nat) : AMap := lease.filter (fun p => !(isExpired now p))
+/-- table after `get_expired_keys(now)` removed them (`remove_if(key, v <= now)`). -/
+def dropExpired (lease : AMap) (now : Nat) : AMap := eraseAll lease (expiredKeys lease now)
 
 /-- `may_have_expired_keys(now)`: first 10 entries of the iteration. -/
 def mayHaveExpired (lease : AMap) (now : Nat) : Bool := (lease.take 10).any (isExpired now)
@@ -145,12 +151,15 @@ def reopen (s : St) : St :=
 /-! ## one step -/
 
 def step (s : St) : Op → St × Obs
-  | .put k v ttl =>
-    let exp := match ttl with | some t => s.now + t | none => 0
-    ({ s with
-        data := set s.data k v
-        lease := (match ttl with | some t => set s.lease k (s.now + t) | none => erase s.lease k)
-        wal := walAppend s (.ins k v exp) }, .none)
+  | .put k v none =>
+    ({ s with data := set s.data k v, lease := erase s.lease k, wal := walAppend s (.ins k v 0) }, .none)
+  | .put k v (some t) =>
+    -- `SystemTime::now() + Duration::from_secs(ttl)` panics on overflow (i64 seconds) — in
+    -- `encode_wal_entry` (File) / `TtlLease::register` (RocksDB), i.e. inside `apply_chunk`
+    if overflowAt ≤ s.now + t then (s, .panic)
+    else
+      ({ s with data := set s.data k v, lease := set s.lease k (s.now + t)
+                wal := walAppend s (.ins k v (s.now + t)) }, .none)
   | .del k =>
     ({ s with data := erase s.data k, lease := erase s.lease k, wal := walAppend s (.del k) }, .none)
   | .cas k e v =>
